@@ -51,6 +51,7 @@ Lines2 == {q \in CanonOpen(A2) \cup CanonOpen(A3) : TRUE} \cup {Rev(q) : q \in S
           \cup RingsOf(Q3) \cup Sample(RingsOf(Q4), 2, 0)
 
 None == <<>>
+H2Stride == IF Stride >= 8 THEN Stride \div 4 ELSE Stride
 Job(k, a, b, c) == [k |-> k, a |-> a, b |-> b, c |-> c]
 HR == SetToSeq(HoleRings)
 NHR == Len(HR)
@@ -64,7 +65,7 @@ JobsSimple == {Job("simple", r, None, None) : r \in SmallRings}
 JobsLine   == {Job("line", q, None, None) : q \in Lines2}
 JobsHole1  == {Job("hole1", SH[e], HR[h], None) : e \in DOMAIN SH, h \in 1 .. NHR}
 JobsHole2  == {Job("hole2", SH[e], HR[p[1]], HR[p[2]]) : e \in DOMAIN SH,
-                 p \in {p \in (1 .. NHR) \X (1 .. NHR) : p[1] < p[2] /\ (p[1] * 31 + p[2]) % Stride = Offset % Stride}}
+                 p \in {p \in (1 .. NHR) \X (1 .. NHR) : p[1] < p[2] /\ (p[1] * 31 + p[2]) % H2Stride = Offset % H2Stride}}
 JobsMP     == {Job("mp", HR[p[1]], HR[p[2]], None) :
                  p \in {p \in (1 .. NHR) \X (1 .. NHR) : p[1] < p[2] /\ (p[1] * 17 + p[2]) % Stride = (Offset + 1) % Stride}}
 
@@ -85,10 +86,18 @@ IsValid(j) ==
       [] j.k = "hole2"  -> ValidPolygon(j.a, <<j.b, j.c>>, F)
       [] j.k = "mp"     -> TouchOnlyAtPoints(RingMap(j.a, F), RingMap(j.b, F), F)
 
+\* number of points in which rings of the polygon touch one another (ear-cut is only claimed for 0)
+Touches(j) ==
+    CASE j.k = "hole1" -> TouchCount(RingMap(j.b, F), RingMap(j.a, F), F)
+      [] j.k = "hole2" -> TouchCount(RingMap(j.b, F), RingMap(j.a, F), F) + TouchCount(RingMap(j.c, F), RingMap(j.a, F), F)
+                          + TouchCount(RingMap(j.b, F), RingMap(j.c, F), F)
+      [] j.k = "mp"    -> TouchCount(RingMap(j.a, F), RingMap(j.b, F), F)
+      [] OTHER -> 0
+
 Next == /\ out = "todo"
         /\ job' = job
         /\ IF IsValid(job)
-           THEN /\ out' = "valid" /\ PrintT(<<"POOL", ToJson([k |-> job.k, g |-> Geom(job)])>>)
+           THEN /\ out' = "valid" /\ PrintT(<<"POOL", ToJson([k |-> job.k, g |-> Geom(job), touch |-> Touches(job)])>>)
            ELSE out' = "invalid"
 Spec == Init /\ [][Next]_vars
 
